@@ -92,7 +92,7 @@ Section Block.
   Variable to tq : N.
   Definition hdr : N := 65.
 
-  (** does the accessor refuse a Q4 file of the wrong size ([openQ4] with the size check of fix-c07-1)?
+  (** does the accessor refuse a Q4 file of the wrong size ([openQ4] with the size check of fix commit 209657c)?
       [true] = repaired code, [false] = code before the repair. *)
   Variable q4_size_checked : bool.
 
@@ -264,7 +264,8 @@ Definition agree (c : crash_case) : bool :=
   let s2 := put_final (c_to c) (c_tq c) m s in
   let s3 := exec s2 remove_effects in
   Bool.eqb (has s) (o_has c) && obs_eqb (obs_of (lk s)) (o_lookup c) &&
-  (negb (o_has c) || Bool.eqb (q4_used (c_tq c) true s) (o_q4_used c)) &&
+  (* which file serves the parity half is observable only through a block that opens and reads back correctly *)
+  (negb (obs_eqb (obs_of (lk s)) OFull) || Bool.eqb (q4_used (c_tq c) true s) (o_q4_used c)) &&
   o_reput_ok c && obs_eqb (obs_of (lk s2)) (o_lookup2 c) && Bool.eqb (has s2) (o_has2 c) &&
   optN_eqb (ods s2) (o_ods2 c) && optN_eqb (q4 s2) (o_q42 c) &&
   obs_eqb (obs_of (lk s3)) (o_lookup3 c) && Bool.eqb (has s3) (o_has3 c).
